@@ -968,6 +968,22 @@ func main() {
 			scs = append(scs, sc)
 		}
 	}
+	// a base name that is an importable path by itself (io) bound to ANOTHER package by the group: what that package lacks (or
+	// declares as a non-interface) is unresolvable there, although the std package called io declares it -- `pkg.T` is never
+	// retried as a fully-qualified name; likewise when the bound package cannot be imported. Controls: the std package bound
+	// again last, and no Import() at all.
+	lio := "example.com/c20/lib/io"
+	for _, imps := range [][]string{{fio}, {lio}, {"io", fio}, {fio, lio}, {"example.com/nosuch/io"}} {
+		for _, q := range []reqT{iq("io", "StringWriter"), iq("io", "Writer"), iq("io", "ReadWriter"), fr("io", "StringWriter", "WriteString"),
+			fr("io", "Writer", "Write"), fr("io", "Reader", "Read")} {
+			sc := mk(g(false, imps, q), g(false, nil, q))
+			sc.Own = true
+			sc.Position = "a name the bound package lacks"
+			scs = append(scs, sc)
+		}
+	}
+	scs = append(scs, mk(g(false, []string{fio, "io"}, iq("io", "StringWriter"), iq("io", "Writer"), fr("io", "Reader", "Read")),
+		g(false, []string{lio, fio, "io"}, iq("io", "ReadWriter"), fr("io", "StringWriter", "WriteString"))))
 	// no dot at all / nothing after the dot: not a fully-qualified name
 	for _, cu := range []customT{{"GetInterface", "Reader", ""}, {"GetType", "Buffer", ""}, {"GetType", "strings.", ""}, {"GetInterface", "io.", ""}} {
 		sc := mk(cg(nil, cu))
@@ -1446,6 +1462,16 @@ func main() {
 	}
 	for _, m := range funcrefMenu {
 		names[m[1]] = true
+	}
+	// ... and the names the hand-written files ask for
+	for si := range scs {
+		for _, gr := range scs[si].Groups {
+			for _, q := range gr.Reqs {
+				if q.Kind != "typepat" && q.Kind != "typeconstr" {
+					names[q.Name] = true
+				}
+			}
+		}
 	}
 	sort.Strings(paths)
 	for _, p := range paths {
